@@ -230,6 +230,8 @@ def normalize_event(d, sites):
         return dict(e='Fin')
     if e == 'terminate':
         return dict(e='Terminate')
+    if e == 'final':
+        return dict(e='final', fl=d['fl'], mon=d['mon'], comp=d['comp'])
     o = dict(e=e, a=d['a'], skip=d['skip'], acc=d['acc'], ret=d['ret'])
     o['thr'], o['thrv'] = parse_thr(d['thr'])
     o['reps'] = [parse_report(r, sites) for r in d['reps']]
@@ -237,9 +239,12 @@ def normalize_event(d, sites):
     o['trs'] = [parse_trace_msg(t, sites) for t in d['trs']]
     o['cl'] = d['cl']
     o['probe'] = d['probe']
-    o['fl'] = d['fl']
-    o['mon'] = d['mon']
-    o['comp'] = d['comp']
+    o['fl'] = d.get('fl', [])
+    o['mon'] = d.get('mon', [])
+    o['comp'] = d.get('comp', [])
+    o['q'] = d.get('q', [-1, -1])
+    o['conc'] = 0
+    o['lockviol'] = []
     return o
 
 def normalize_file(raw_path, out_path, sites):
@@ -260,3 +265,103 @@ def normalize_file(raw_path, out_path, sites):
 if __name__ == '__main__':
     sites = Sites(sys.argv[1])
     print(normalize_file(sys.argv[2], sys.argv[3], sites))
+
+
+# ---------------------------------------------------------------- concurrent traces (C12)
+
+def linearize_segment(events, sites):
+    """events of one concurrent segment (raw, incl. tickets and hook events) -> normalised events in
+    linearization order: every critical section is one event, ordered by the ticket the instrumented lock issued."""
+    lin = []          # (key, normalised event)
+    seqno = 0
+    last_ticket = {}
+    for d in events:
+        seqno += 1
+        base = normalize_event(d, sites)
+        base['conc'] = 1
+        tid = d['thr_id']
+        hooks = d.get('hooks', [])
+        base['lockviol'] = [h['n'] for h in hooks if h['sh'] and not h['held']]
+        tickets = d.get('tickets', [])
+        ph = d.get('ph', 'thr')
+        def key_for(t):
+            if t:
+                last_ticket[tid] = t
+                last_ticket['max'] = max(last_ticket.get('max', 0), t)
+                return (float(t), 0, seqno)
+            if ph == 'pre':
+                return (-1.0, 0, seqno)                                # main thread, before the threads exist
+            if ph == 'post':
+                return (last_ticket.get('max', 0) + 0.5, 0, seqno)    # main thread, after the join
+            return (last_ticket.get(tid, 0) + 0.5, tid, seqno)       # unlocked step: after the thread's previous section
+        blank = dict(base, reps=[], oks=[], cl=[], acc=1, ret=0, thr='', thrv=0, lockviol=[], q=[-1, -1])
+        if d['e'] == 'expect' and not d['skip'] and d['thr'] == '':
+            a = d['a']
+            nreg = 0
+            subs = [h for h in hooks if h['n'] in ('seq_add', 'limits', 'hook')]
+            first = True
+            for h in subs:
+                k = key_for(h['t'])
+                if first:
+                    lin.append(((k[0] - 0.25, k[1], k[2]), dict(blank, e='ecreate', a=a)))
+                    first = False
+                if h['n'] == 'seq_add':
+                    nreg += 1
+                    lin.append((k, dict(blank, e='ereg', a=[a[0], nreg])))
+                elif h['n'] == 'limits':
+                    lin.append((k, dict(blank, e='elim', a=[a[0]])))
+                else:
+                    lin.append((k, dict(blank, e='ehook', a=[a[0], a[2]], lockviol=base['lockviol'])))
+            if first:      # no hook events at all: the hooks are missing -> let the validator see it
+                lin.append((key_for(tickets[0] if tickets else 0), dict(base, lockviol=['no-hook-events'])))
+        elif d['e'] == 'watch' and not d['skip']:
+            a = d['a']
+            subs = [h for h in hooks if h['n'] in ('watch', 'seq_add')]
+            nreg = 0
+            for h in subs:
+                k = key_for(h['t'])
+                if h['n'] == 'watch':
+                    lin.append((k, dict(blank, e='wcreate', a=[a[0], a[1]], lockviol=base['lockviol'])))
+                else:
+                    nreg += 1
+                    lin.append((k, dict(blank, e='wreg', a=[a[0], a[2 + nreg]])))
+            if not subs:
+                lin.append((key_for(tickets[0] if tickets else 0), dict(base, lockviol=['no-hook-events'])))
+        elif d['e'] == 'query' and not d['skip'] and len(tickets) == 2:
+            # is_satisfied() and is_saturated() are two critical sections
+            lin.append((key_for(tickets[0]), dict(base, e='qsat', q=[base['q'][0], -1])))
+            lin.append((key_for(tickets[1]), dict(blank, e='qsatur', a=d['a'], q=[-1, base['q'][1]])))
+        else:
+            lin.append((key_for(tickets[0] if tickets else 0), base))
+    lin.sort(key=lambda x: x[0])
+    return [e for k, e in lin]
+
+def normalize_conc_file(raw_path, out_path, sites):
+    n = 0
+    cur = None
+    with open(raw_path) as f, open(out_path, 'w') as g:
+        def flush():
+            nonlocal cur, n
+            if cur is not None:
+                for e in linearize_segment(cur, sites):
+                    g.write(json.dumps(e, separators=(',', ':')) + '\n'); n += 1
+            cur = None
+        for line in f:
+            line = line.strip()
+            if not line:
+                continue
+            try:
+                d = json.loads(line)
+            except Exception:
+                continue
+            if d['e'] == 'seg':
+                flush()
+                g.write(json.dumps(dict(e='Seg', id=str(d['id']))) + '\n'); n += 1
+                cur = []
+            elif d['e'] in ('final', 'fin', 'endseg', 'terminate'):
+                flush()
+                g.write(json.dumps(normalize_event(d, sites), separators=(',', ':')) + '\n'); n += 1
+            elif cur is not None:
+                cur.append(d)
+        flush()
+    return n
